@@ -24,5 +24,14 @@ if v:
     json.dump({'from_seed': sys.argv[3], 'key': v['key'], 'what': v['what'][:300], 'case': v['case']},
               open(f'/verif/corpus/{sys.argv[2]}/{sys.argv[3]}.json', 'w'), indent=1, default=str)
 PY
+  # a corpus case must hold on the unchanged tree (otherwise it is an artefact of the harness, not a failing input of
+  # the seeded change): replay it against /repo HEAD and drop it if it does not
+  c=/verif/corpus/$prop/$(basename $d).json
+  if [ -f "$c" ]; then
+    /venv/bin/python -c "import json,sys; d=json.load(open('$c')); json.dump({'violations':[{'key':d['key'],'what':d['what'],'case':d['case']}]}, open('$w/c.json','w'), default=str)"
+    if ! (cd /verif && ./check "$prop" --replay "$w/c.json" >/dev/null 2>&1); then
+      echo "CORPUS CASE DROPPED (does not hold on HEAD): $c"; rm -f "$c"
+    fi
+  fi
 fi
 git -C /repo worktree remove --force "$w/r"; rm -rf "$w"
